@@ -641,7 +641,7 @@ func ruleSendWholeMessages(c *chk.Ctx) {
 		}
 		arg := args[0]
 		allEncoded := true
-		var bad []string
+		var bad, foreign []string
 		n := 0
 		for _, src := range c.P.SourcesStop(arg, stop) {
 			n++
@@ -653,8 +653,20 @@ func ruleSendWholeMessages(c *chk.Ctx) {
 				}
 			} else {
 				bad = append(bad, fmt.Sprintf("%s (%T) at %s", src.String(), src, c.P.Pos(src.Pos())))
+				// bytes that are neither an encoder's output nor "nothing" (nil): text assembled
+				// some other way (a formatted string, a conversion) — the emptiness guard at the
+				// sink says nothing about its being valid JSON
+				if !ir.IsNilConst(src) {
+					if _, isParam := src.(*ssa.Parameter); !isParam {
+						foreign = append(foreign, fmt.Sprintf("%s (%T) at %s", src.String(), src, c.P.Pos(src.Pos())))
+					}
+				}
 			}
 			allEncoded = false
+		}
+		if len(foreign) > 0 {
+			c.Fail("PROV.send", s.fn, "Send argument", s.instr.Pos(), "Send may transmit bytes that no encoder produced: %s — text assembled by formatting is not escaped as JSON (an error message quoting a '\"' would make the record unparseable)", strings.Join(foreign, "; "))
+			continue
 		}
 		if n == 0 {
 			c.Undecided("PROV.send", s.fn, "Send argument", s.instr.Pos(), "no provenance found for the Send argument")
